@@ -199,6 +199,56 @@ def seeded_for(prop: str, repo_root: str, jobs: int = 16) -> dict:
     }
 
 
+def _run_combined(prop: str, bname: str, bpatch: str, nname: str, npatch: str, repo_root: str) -> dict:
+    """A kept breaking change applied on top of a kept refactoring: the same slip in a differently written tree."""
+    res = {"name": f"{bname} on {nname}"}
+    tmp = tempfile.mkdtemp(prefix="vstatic-seed-")
+    try:
+        shutil.copytree(os.path.join(repo_root, "pykdebugparser"), os.path.join(tmp, "pykdebugparser"),
+                        ignore=shutil.ignore_patterns("__pycache__"))
+        for pp in (npatch, bpatch):
+            ap = subprocess.run(["git", "apply", "--whitespace=nowarn", pp], cwd=tmp, capture_output=True, text=True)
+            if ap.returncode:
+                res["status"] = "skipped"
+                return res
+        env = dict(os.environ, VSTATIC_OUT=os.path.join(tmp, "out"), PYTHONDONTWRITEBYTECODE="1")
+        p = subprocess.run([sys.executable, "-m", "vstatic", "check", prop, "--tier", "quick", "--repo", tmp],
+                           cwd=VERIF, env=env, capture_output=True, text=True, timeout=600)
+        res["exit"] = p.returncode
+        res["status"] = {1: "detected", 0: "missed"}.get(p.returncode, "analysis-error")
+        if p.returncode != 1:
+            out = p.stdout + p.stderr
+            res["report"] = [ln.strip()[:240] for ln in out.splitlines() if "ANALYSIS-ERROR" in ln][:1]
+    finally:
+        shutil.rmtree(tmp, ignore_errors=True)
+    return res
+
+
+def combined_for(prop: str, repo_root: str, jobs: int = 16) -> dict:
+    """Every kept breaking change that targets the property on top of every kept refactoring (where both patches apply)."""
+    import json
+    root = os.path.join(VERIF, "seeded")
+    br, ne = [], []
+    for name in sorted(os.listdir(root)) if os.path.isdir(root) else []:
+        mp, pp = os.path.join(root, name, "meta.json"), os.path.join(root, name, "patch.diff")
+        if not (os.path.isfile(mp) and os.path.isfile(pp)):
+            continue
+        meta = json.load(open(mp))
+        if meta.get("kind") == "neutral-refactor":
+            ne.append((name, pp))
+        elif meta.get("property") == prop:
+            br.append((name, pp))
+    todo = [(b, bp, n, np_) for b, bp in br for n, np_ in ne]
+    results = []
+    if todo:
+        with cf.ThreadPoolExecutor(max_workers=jobs) as ex:
+            results = list(ex.map(lambda t: _run_combined(prop, t[0], t[1], t[2], t[3], repo_root), todo))
+    ran = [r for r in results if r["status"] != "skipped"]
+    return {"combined_trees": len(ran), "detected": sum(1 for r in ran if r["status"] == "detected"),
+            "not_applicable_together": len(results) - len(ran),
+            "problems": [r for r in ran if r["status"] != "detected"]}
+
+
 def attach(run, repo) -> None:
     """Hook used by rule modules' ``thorough``: run the property's mutants and record the outcome."""
     s = run_for(run.prop, repo.root)
@@ -213,6 +263,12 @@ def attach(run, repo) -> None:
           f"{k['silent']}/{k['refactorings']} behaviour-preserving refactorings silent, {k['skipped']} skipped")
     for r in k["problems"]:
         print(f"  independent change {r['status']}: {r['name']} {r.get('report')}")
+    c = combined_for(run.prop, repo.root)
+    run.extra["independent_changes_combined"] = c
+    print(f"  breaking changes hidden in refactored trees: {c['detected']}/{c['combined_trees']} detected "
+          f"({c['not_applicable_together']} pairs do not apply together)")
+    for r in c["problems"]:
+        print(f"  combined change {r['status']}: {r['name']} {r.get('report')}")
 
 
 def main(argv=None) -> int:
